@@ -126,6 +126,20 @@ func c05CheckFilter(s *bt.Srv, cands []bt.RowOut, f *bt.Filter, st *c05Stats) st
 			st.labels["invalid-node-reached"] = true
 			st.nontrivial = true
 		}
+		if len(cands) >= 2 {
+			// the same filter over a row set of single keys (one scan piece per row): an invalid argument reached
+			// on one row must fail the read whatever the pieces after it contain
+			rs := &bt.RowSet{}
+			for _, c := range cands {
+				rs.Keys = append(rs.Keys, c.Key)
+			}
+			got2 := s.Exec(&bt.Op{K: "ReadRows", Table: tbl, Rows: rs, Filter: f})
+			e2 := bt.ExpectRead(cands, rs, f, 0, false, nil)
+			if mis := e2.Check(got2, strict); mis != "" {
+				return "read over a row set of single keys: " + mis
+			}
+			st.labels["also-read-per-key-row-set"] = true
+		}
 		if f.Depth() >= 2 {
 			for i, r := range e.Rows {
 				_ = i
